@@ -38,6 +38,12 @@ Theorem C20_parse_render : forall s, stub_ok s = true -> parse_stub (render s) =
 Proof. exact parse_render. Qed.
 Print Assumptions C20_parse_render.
 
+(* the same for the text generate_stub returns ("\n".join of the lines), given no line contains a line break *)
+Theorem C20_parse_text_render : forall s,
+  stub_ok s = true -> forallb no_nl (render s) = true -> parse_text (join [10%N] (render s)) = Some s.
+Proof. exact parse_text_render. Qed.
+Print Assumptions C20_parse_text_render.
+
 (* open finding F45: without a plain leading positional parameter *args and keyword-only-ness are lost *)
 Theorem C20_method_sig_refuted :
   exists sp, spec_names_ok sp = true /\ known_F45 sp = true /\
